@@ -2,6 +2,7 @@ import PytmeModel.Model.C01
 import PytmeModel.Proofs.Circ
 import PytmeModel.Proofs.Common
 import PytmeModel.Proofs.C01Field
+import PytmeModel.Proofs.C01Textbook
 import Mathlib.Algebra.BigOperators.Group.Finset.Basic
 import Mathlib.Tactic.Ring
 import Mathlib.Tactic.Linarith
@@ -527,6 +528,46 @@ theorem flc_same_rot3 (pad : Bool) (R : GridRot) (a b c n0 n1 n2 N0 N1 N2 : Nat)
   exact this
 
 end Scores
+
+/-! ## the code's double standardisation is the textbook single one for binary masks -/
+
+section textbook
+open Pm.C03
+variable {α : Type} [Field α] [LinearOrder α] [IsStrictOrderedRing α]
+
+/-- **FLC as the code evaluates it = textbook FLC, for binary masks and grid rotations.**
+`flc_setup` standardises the template under the mask and `flc_scoring` standardises the rotated result again under
+the rotated mask.  For a mask with values in {0,1} (`w² = w`), positive mass, a template that is not constant under
+it, and any rotation that permutes the box (identity, the 4 / 24 grid rotations), the value is the one obtained by
+standardising the rotated *raw* template once — the textbook fast local correlation — whatever correlation functional
+`C` (FFT or windowed), target and translation. -/
+theorem flc_code_eq_textbook_binary (sqrt : α → α) (hs : SqrtOk sqrt) (eps : α)
+    (C : (List Int → α) → (List Int → α) → α) (ms : List Nat) (rot) (hr : RotSum (α := α) ms rot)
+    (f f2 g w : List Int → α) (hbin : ∀ x, w x * w x = w x)
+    (hn : 0 < sumShape ms (fun k => w (natsToInts k)))
+    (hvar : 0 < (Win.mk ms (fun k => w (natsToInts k)) (fun k => g (natsToInts k)) (fun k => g (natsToInts k))).B) :
+    scoreFLC (ordOps sqrt eps) C ms f f2
+        (rot (normT (ordOps sqrt eps) (normStats (ordOps sqrt eps) ms g w (maskSum (ordOps sqrt eps) ms w)) g w)) (rot w)
+      = scoreFLC (ordOps sqrt eps) C ms f f2 (rot g) (rot w) := by
+  have hn0 : maskSum (ordOps sqrt eps) ms w = sumShape ms (fun k => w (natsToInts k)) := by
+    unfold maskSum; rw [boxSum_ord]
+  obtain ⟨h1, h2⟩ := normT_idempotent_binary sqrt eps hs ms g w hbin hn hvar
+  unfold scoreFLC
+  simp only [maskSum_rot sqrt eps ms rot hr, normStats_rot sqrt eps ms rot hr, normT_rot sqrt eps ms rot hr, hn0, h1, h2]
+
+/-- instance for the 24 grid rotations in 3-D -/
+theorem flc_code_eq_textbook_binary_rot3 (sqrt : α → α) (hs : SqrtOk sqrt) (eps : α)
+    (C : (List Int → α) → (List Int → α) → α) (R : GridRot) (a b c : Nat) (hR : GridOk3 R a b c)
+    (f f2 g w : List Int → α) (hbin : ∀ x, w x * w x = w x)
+    (hn : 0 < sumShape [a, b, c] (fun k => w (natsToInts k)))
+    (hvar : 0 < (Win.mk [a, b, c] (fun k => w (natsToInts k)) (fun k => g (natsToInts k)) (fun k => g (natsToInts k))).B) :
+    scoreFLC (ordOps sqrt eps) C [a, b, c] f f2
+        (rotF R [a, b, c] (normT (ordOps sqrt eps) (normStats (ordOps sqrt eps) [a, b, c] g w (maskSum (ordOps sqrt eps) [a, b, c] w)) g w))
+        (rotF R [a, b, c] w)
+      = scoreFLC (ordOps sqrt eps) C [a, b, c] f f2 (rotF R [a, b, c] g) (rotF R [a, b, c] w) :=
+  flc_code_eq_textbook_binary sqrt hs eps C [a, b, c] _ (rotSum_grid3 R a b c hR) f f2 g w hbin hn hvar
+
+end textbook
 
 /-! ## zero extension of arrays has box support; non-vacuity -/
 
